@@ -237,7 +237,7 @@ func ringSimilar(a, b []Point, e float64) bool {
 
 // ring iterator function
 func nextPt(i, l int) int {
-	if i == l-2 { // Skip the last point that matches the first point.
+	if i >= l-2 { // Skip the last point that matches the first point.
 		return 0
 	}
 	return i + 1
